@@ -18,7 +18,7 @@ from typing import Dict, List, Optional, Set, Tuple
 from .report import Ctx
 from .shared_rules import check_global_state_restore
 from .srcmodel import AnalysisError, call_leaf, call_name, calls_in, const_str, contains, dotted, get_kwarg, src, walk_local
-from .util import enclosing_trys, enclosing_withs, guard_chain, handler_type_names, root_name, strip_not
+from .util import body_raises, enclosing_trys, enclosing_withs, guard_chain, handler_type_names, root_name, strip_not
 
 PAIRS = [("r", "R"), ("w", "W"), ("x", "X"), ("d", "D"), ("f", "F")]
 CONSUMERS = {"parse_string", "_load_config_parser_mode", "_apply_actions", "adapt_typehints", "_parse_common"}
@@ -40,7 +40,7 @@ def _flag_ifs(init: ast.AST) -> Dict[str, List[Tuple[ast.If, ast.AST]]]:
     for n in walk_local(init):
         if not isinstance(n, ast.If) or not isinstance(n.test, ast.BoolOp) or not isinstance(n.test.op, ast.And):
             continue
-        if not (len(n.body) == 1 and isinstance(n.body[0], ast.Raise)):
+        if body_raises(n.body) is None:
             continue
         first = n.test.values[0]
         if isinstance(first, ast.Compare) and len(first.ops) == 1 and isinstance(first.ops[0], ast.In) and const_str(first.left) and len(const_str(first.left)) == 1 and root_name(first.comparators[0]) == "mode":
@@ -155,7 +155,7 @@ def run(ctx: Ctx) -> int:
     # _check_mode rejects contradictory modes and repeats
     combos = set()
     for n in walk_local(cm):
-        if isinstance(n, ast.If) and isinstance(n.test, ast.BoolOp) and isinstance(n.test.op, ast.And) and len(n.body) == 1 and isinstance(n.body[0], ast.Raise):
+        if isinstance(n, ast.If) and isinstance(n.test, ast.BoolOp) and isinstance(n.test.op, ast.And) and body_raises(n.body) is not None:
             fl = sorted(const_str(v.left) for v in n.test.values if isinstance(v, ast.Compare) and const_str(v.left))
             combos.add("".join(fl))
     ok = {"df", "du", "ds"} <= combos
